@@ -180,6 +180,10 @@ def built_case(rng, style="plain", which=None, mpm=None, bins=None):
         spec = dict(cls="TimeReversibleDinucleotide", preds=["kappa"], mprob_model=mpm, motifs=keep)
         names = ["kappa"]
         nmp, fam = (4 if mpm in ("monomer", "monomers") else len(keep)), "dinucleotide"
+    elif which == "general":
+        spec = dict(cls="General", preds=[], mprob_model=None)
+        names = [f"{a}/{b}" for a in NUC for b in NUC if a != b][:-1]   # every cell its own rate; G/A is the reference
+        nmp, fam = 4, "nucleotide"
     elif which == "general_stationary":
         spec = dict(cls="GeneralStationary", preds=[], mprob_model=None)
         names = ["T>C", "T>A", "T>G", "C>T", "A>T", "C>A", "C>G", "A>C", "A>G"]
@@ -310,6 +314,14 @@ def aux_cases(rng, tier):
             A[i][i] = -sum(A[i])
         out.append(dict(kind="taylor", A=A))
     out.append(dict(kind="taylor", A=[[0.0] * 2 for _ in range(2)]))
+    for _ in range(8 if tier == "quick" else 60):
+        out.append(dict(kind="ratios", ratios=[rng.choice([rng.randint(1, 64) / 8, 2.0 ** -rng.randint(1, 19), 2.0 ** rng.randint(3, 19)])
+                                               for _ in range(rng.randint(1, 8))]))
+    for _ in range(2 if tier == "quick" else 10):
+        ml = rng.choice([1, 1, 2])
+        nst = 4 ** ml
+        out.append(dict(kind="discrete", model=rng.choice(["BH", "DT"]) if ml == 1 else "DT", motif_length=ml,
+                        psubs={e: [rand_probs(rng, nst, "plain") for _ in range(nst)] for e in rng.sample("abc", rng.randint(1, 3))}))
     nr = 12 if tier == "quick" else 150
     for _ in range(nr):
         k = rng.randint(2, 5)
@@ -388,6 +400,8 @@ def build_cases(rng, tier):
         cases.append(built_case(rng, "plain", which=rng.choice(["rand_preds_nuc", "rand_preds_nuc", "rand_preds_dinuc"])))
     for _ in range(12 if tier == "quick" else 90):
         cases.append(gs_case(rng))
+    for st_ in (["plain", "short", "extreme"] if tier == "quick" else ["plain", "short", "extreme", "near_equal", "near_degenerate", "long"] * 4):
+        cases.append(built_case(rng, st_, which="general"))
     if tier != "quick":
         for _ in range(12):
             cases.append(built_case(rng, rng.choice(["plain", "extreme", "tiny_pi"]), which="subset_dinuc"))
@@ -435,15 +449,26 @@ def taylor_terms_needed(norm, eps=1e-13):
     return k + 1
 
 
+def coq_pick_case(c, st, r=None):
+    """CasePick: General / GeneralStationary from param_pick and last_in_column (data) and the INPUT values"""
+    gs = c["spec"]["cls"] == "GeneralStationary"
+    pick = "[" + ";".join("[" + ";".join(nat(x) for x in row) + "]" for row in st["param_pick"]) + "]"
+    lic = "[" + ";".join(f"({nat(i)},{nat(j)})" for i, j in st["last_in_column"]) + "]"
+    params = "[" + ";".join(rat(c["params"][p]) for p in st["param_order"]) + "]"
+    probs = "[" + ";".join(rat(x) for x in c["mprobs"]) + "]"
+    return f"CasePick {'true' if gs else 'false'} {nat(len(st['words']))} {pick} {lic} {params} {probs}"
+
+
 def coq_lf_case(c, r):
     """CaseQ for an lf case, or None when the model does not cover it"""
     st = r["structure"]
+    if c["spec"].get("cls") in ("GeneralStationary", "General"):
+        return coq_pick_case(c, st, r), 0
     if st["pred_masks"] is None or not (st["stationary_calcQ"] or st["general_calcQ"]):
         return None
     mp = {"SimpleMotifProbModel": 0, "MonomerProbModel": 1, "ConditionalMotifProbModel": 2,
           "PosnSpecificMonomerProbModel": 3}.get(st["mprob_class"])
-    if c["spec"].get("cls") == "GeneralStationary":
-        return None  # its exchangeability matrix solves for the last entry of each column: not modelled
+
     if mp is None:
         return None
     mono = st["monomers"]
@@ -489,6 +514,8 @@ def coq_aux_case(c, r):
         return f"CasePade {nat(len(As))} {nat(q)} {coq_ratmat(As)}"
     if c["kind"] == "taylor":
         return f"CaseTaylor {nat(len(c['A']))} {nat(r['q_after'] - 1)} {coq_ratmat(c['A'])}"
+    if c["kind"] == "ratios":
+        return f"CaseRatios [{';'.join(rat(x) for x in c['ratios'])}]"
     if c["kind"] == "rates":
         kind = {"weighted": 0, "monotonic": 1, "gamma": 2}[c["which"]]
         v = r["medians"] if c["which"] == "gamma" else c["v"]
@@ -518,6 +545,8 @@ def one_diff(w1, w2):
 
 def published_rate(name_or_spec, params, x, y):
     """multiplier of the exchange x -> y (nucleotides), from the publications; None = oracle not available"""
+    if isinstance(name_or_spec, dict) and name_or_spec.get("cls") == "General":
+        return params.get(f"{x}/{y}", 1.0)   # G/A is the reference cell
     if isinstance(name_or_spec, dict):
         f = 1.0
         for p in name_or_spec["preds"]:
@@ -836,6 +865,22 @@ def spec_checks(ck: Checker, c, r):
 
 
 def aux_spec_checks(ck: Checker, c, r):
+    if c["kind"] == "ratios":
+        pr = numpy.array(r["props"])
+        ck.near(float(pr.sum()), 1.0, TOL, "discrete:partition-sum", c, "ratios_to_proportions(1, ratios) does not sum to one")
+        ck.check(len(pr) == len(c["ratios"]) + 1 and bool((pr >= 0).all()), "discrete:partition-shape", c,
+                 "ratios_to_proportions: wrong length or negative entry", dict(observed_impl=r["props"]))
+        return
+    if c["kind"] == "discrete":
+        for e, M in r["P"].items():
+            P = numpy.array(M)
+            ck.near(P.sum(axis=1), numpy.ones(len(P)), TOL, "discrete:P-rows", c, "rows of a discrete-time psub matrix do not sum to one", dict(edge=e))
+            ck.check(bool((P >= 0).all()), "discrete:P-nonneg", c, "negative entry in a discrete-time psub matrix", dict(edge=e))
+            if e in c["psubs"]:
+                ck.near(P, numpy.array(c["psubs"][e]), 1e-12, "discrete:P-roundtrip", c,
+                        "psub matrix read back differs from the one set (proportions -> ratios -> proportions)", dict(edge=e))
+        ck.check(r["lnL_finite"], "discrete:lnL", c, "likelihood not finite", {})
+        return
     if c["kind"] == "expm_all":
         A = numpy.array(c["A"])
         t = c["t"]
@@ -885,6 +930,24 @@ def model_compare(ck: Checker, c, r, mv, terms, disagreements, p_reliable=True):
     def dis(key, what, a, b, m):
         disagreements.append(dict(key=key, case=c, what=what, model_output=a, observed_impl=b, max_scaled_diff=m))
 
+    if c["kind"] == "lf" and c["spec"].get("cls") in ("GeneralStationary", "General"):
+        from vcheck.val import Exc
+
+        ck.nchecks += 1
+        if isinstance(mv, Exc) or "refused" in r:
+            if not (isinstance(mv, Exc) and "refused" in r):
+                dis("model:refusal:" + c["spec"]["cls"], "model and implementation disagree on refusing this parameter vector",
+                    repr(mv)[:80], r.get("refused", "accepted"), None)
+            return
+        Rm, Q = [unscale(x) for x in mv]
+        for key, a, b in (("model:R", Rm, r.get("R")), ("model:Q", Q, r["Q"])):
+            if b is None:
+                continue
+            ok, m = close(b, a, TOL)
+            ck.nchecks += 1
+            if not ok:
+                dis(key + ":" + c["spec"]["cls"], "model and implementation differ", a, b, m)
+        return
     if c["kind"] == "lf":
         wp, Rm, Q, P = [unscale(x) for x in mv]
         for key, a, b in (("model:wordprobs", wp, r["pi"]), ("model:R", Rm, r.get("R")), ("model:Q", Q, r["Q"])):
@@ -922,6 +985,12 @@ def model_compare(ck: Checker, c, r, mv, terms, disagreements, p_reliable=True):
         ck.nchecks += 1
         if not ok:
             dis("model:taylor", "model Taylor partial sum (same number of terms) differs from TaylorExponentiator", P, r["P"], m)
+    elif c["kind"] == "ratios":
+        v = unscale(mv)
+        ok, m = close(r["props"], v, 1e-12)
+        ck.nchecks += 1
+        if not ok:
+            dis("model:ratios", "model partition differs from ratios_to_proportions", v, r["props"], m)
     elif c["kind"] == "rates":
         v = unscale(mv)
         ok, m = close(r["rates"], v, 1e-12)
@@ -960,9 +1029,14 @@ def coverage_grid():
 def run_model(cases, impl):
     terms, coq_cases, idx = [], [], []
     for k, (c, r) in enumerate(zip(cases, impl)):
+        if isinstance(r, dict) and "refused" in r and r.get("structure", {}).get("param_pick") and c["kind"] == "lf":
+            coq_cases.append(coq_pick_case(c, r["structure"]))   # the model must refuse as well
+            terms.append(0)
+            idx.append(k)
+            continue
         if isinstance(r, dict) and ("exc" in r or "refused" in r):
             continue
-        if c["kind"] == "expm_all":
+        if c["kind"] in ("expm_all", "discrete"):
             continue
         if c["kind"] == "lf":
             cc = coq_lf_case(c, r)
@@ -1047,6 +1121,8 @@ def run(tier: str, seed: int) -> int:
             elif r["stage"] != "constructor":
                 rep.violation(f"raised:{c['kind']}:{c.get('family', '')}", dict(case=c, observed_impl=r,
                               broken="parameter values within bounds were refused"))
+            if k in model:
+                model_compare(ck, c, r, model[k][0], model[k][1], disagreements)
             continue
         if c.get("built") == "general_stationary":
             gs_stats["accepted:" + c.get("style", "")] = gs_stats.get("accepted:" + c.get("style", ""), 0) + 1
@@ -1077,7 +1153,6 @@ def run(tier: str, seed: int) -> int:
         coverage_matrix=dict(sorted(matrix.items())),
         coverage_cells_never_generated=[x for x in coverage_grid() if x not in matrix],
         not_covered=["model_gaps=True alphabets (gap state, _is_any_indel)", "motif_length=3 trinucleotide (64-state) models",
-                     "ns_substitution_model.General (param_pick form)", "DiscreteSubstitutionModel (BH/DT: no Q)",
                      "edge- or bin-scoped substitution parameters (partitioned_params other than rate)",
                      "multiple loci"],
         refusals=refusals, general_stationary_boundary=gs_stats,
@@ -1091,7 +1166,8 @@ def run(tier: str, seed: int) -> int:
             "agreement of the exponentiator back-ends with each other and with exp(Qt): numerical correspondence only",
             "floating-point rounding, LAPACK, gdtri: not modelled",
             "predicate -> mask translation (evolve/predicate.py) is not modelled in Coq; masks are data, re-derived by the oracle",
-            "GeneralStationary.calc_exchangeability_matrix (last-in-column solve) is not modelled: oracle clauses only",
+            "GeneralStationary: the numpy.allclose fudge zone (a requirement in (-1e-8, 0) is replaced by its absolute value) is "
+            "modelled and compared but excluded from the theorems (premise near0 x -> not neg x)",
         ],
         exhaustive=False,
     )
@@ -1101,7 +1177,7 @@ def run(tier: str, seed: int) -> int:
     print(f"  cells of the buildable grid never generated: {len([x for x in coverage_grid() if x not in matrix])} of {len(coverage_grid())} "
           "(listed in evidence coverage.coverage_cells_never_generated)", flush=True)
     for d in disagreements[:5]:
-        print(f"model/implementation disagreement: {d['key']} max scaled diff {d['max_scaled_diff']:.3g} on {d['case'].get('spec') or d['case'].get('kind')}", flush=True)
+        print(f"model/implementation disagreement: {d['key']} max scaled diff {(d['max_scaled_diff'] or 0):.3g} on {d['case'].get('spec') or d['case'].get('kind')}", flush=True)
     core.conclude(rep, pr, f"{len(cases)} configurations, {ck.nchecks} numeric checks against the published-definition oracle",
                   disagreements[:5], "Model.RateMatrixRun.run_case vs cogent3 substitution models", tier, PROP)
     return rep.finish("proof")
